@@ -116,6 +116,82 @@ theorem faulty_history_rel (o : WOpts) (roots : Option (List Cid)) :
         · exact Or.inr ⟨(b, f), by simp, hl.symm⟩
       · exact Or.inr ⟨e, by simp [he], hex⟩
 
+/-- (3') The same for the blockstore's batch entry point under a fault on ANY of the batch's write
+    calls: whatever the fault does, the store is afterwards related to a specification state — file,
+    position and index consistent — that holds only blocks of the old state and of the batch; the
+    block whose write failed leaves nothing behind, the ones before it are stored like single Puts. -/
+theorem putMany_under_fault (o : WOpts) (roots : Option (List Cid)) :
+    ∀ (bs : List Block) (s : Store) (st : Spec.State) (flt : Option Fault),
+    Rel o roots s st → s.finalized = false ∧ s.closed = false →
+    ∃ st', Rel o roots (s.putManyF o bs flt).1 st' ∧
+      (s.putManyF o bs flt).1.finalized = false ∧ (s.putManyF o bs flt).1.closed = false ∧
+      (∀ b ∈ st'.log, b ∈ st.log ∨ b ∈ bs) := by
+  intro bs
+  induction bs with
+  | nil => intro s st flt rel hopen; exact ⟨st, rel, hopen.1, hopen.2, fun b hb => Or.inl hb⟩
+  | cons b tl ih =>
+    intro s st flt rel hopen
+    have hfl := putOneF_flags o s b.cid b.data flt
+    have hopen' : (s.putOneF o b.cid b.data flt).1.finalized = false ∧ (s.putOneF o b.cid b.data flt).1.closed = false :=
+      ⟨by rw [hfl.1]; exact hopen.1, by rw [hfl.2]; exact hopen.2⟩
+    -- the specification state the store is related to after this one block
+    have hone : ∃ st1, Rel o roots (s.putOneF o b.cid b.data flt).1 st1 ∧ (∀ x ∈ st1.log, x ∈ st.log ∨ x = b) := by
+      rcases put_under_fault o roots s st rel hopen b.cid b.data flt with ⟨_, hrel⟩ | ⟨_, hrel⟩
+      · exact ⟨st, hrel, fun x hx => Or.inl hx⟩
+      · refine ⟨_, hrel, fun x hl => ?_⟩
+        unfold Spec.putOne at hl
+        split at hl
+        · exact Or.inl hl
+        · split at hl
+          · exact Or.inl hl
+          · split at hl
+            · exact Or.inl hl
+            · simp only [List.mem_append, List.mem_singleton] at hl
+              rcases hl with hl | hl
+              · exact Or.inl hl
+              · right; exact hl
+    obtain ⟨st1, hrel1, hlog1⟩ := hone
+    unfold Store.putManyF
+    cases hp : s.putOneF o b.cid b.data flt with
+    | mk s1 r =>
+      obtain ⟨out, evs⟩ := r
+      rw [hp] at hrel1 hopen'
+      cases out with
+      | ok =>
+        simp only
+        obtain ⟨st', h1, h2, h3, h4⟩ := ih s1 st1 (flt.map fun f => ⟨f.call - evs.length, f.bytes⟩) hrel1 hopen'
+        refine ⟨st', h1, h2, h3, fun x hx => ?_⟩
+        rcases h4 x hx with hl | hl
+        · rcases hlog1 x hl with h | h
+          · exact Or.inl h
+          · exact Or.inr (by simp [h])
+        · exact Or.inr (by simp [hl])
+      | err e =>
+        exact ⟨st1, hrel1, hopen'.1, hopen'.2, fun x hx => by
+          rcases hlog1 x hx with h | h
+          · exact Or.inl h
+          · exact Or.inr (by simp [h])⟩
+      | bool v =>
+        exact ⟨st1, hrel1, hopen'.1, hopen'.2, fun x hx => by
+          rcases hlog1 x hx with h | h
+          · exact Or.inl h
+          · exact Or.inr (by simp [h])⟩
+      | data v =>
+        exact ⟨st1, hrel1, hopen'.1, hopen'.2, fun x hx => by
+          rcases hlog1 x hx with h | h
+          · exact Or.inl h
+          · exact Or.inr (by simp [h])⟩
+      | size v =>
+        exact ⟨st1, hrel1, hopen'.1, hopen'.2, fun x hx => by
+          rcases hlog1 x hx with h | h
+          · exact Or.inl h
+          · exact Or.inr (by simp [h])⟩
+      | cids v =>
+        exact ⟨st1, hrel1, hopen'.1, hopen'.2, fun x hx => by
+          rcases hlog1 x hx with h | h
+          · exact Or.inl h
+          · exact Or.inr (by simp [h])⟩
+
 /-- (4) A Finalize whose write fails reports an error and leaves the store closed: no later call can
     succeed, so no malformed archive is ever acknowledged. -/
 theorem failed_finalize_closes (o : WOpts) (s : Store) (flt : Fault) (evs : List WriteEv)
